@@ -102,6 +102,7 @@ class Driver:
         e = self.w.spawn(h, "register", lambda: h.azc.async_register_service(info, **kw), op["svc"]["name"])
         e["info"] = info
         e["svc"] = op["svc"]
+        e["allow_name_change"] = bool(op.get("allow_name_change"))
         return e
 
     def op_update(self, op):
